@@ -29,7 +29,7 @@ def setup_sexp(spec):
 def modelable(spec):
     """configurations the Float driver reproduces: fixed configuration, no randomising clip=False,
     a vector cost only with its reducer"""
-    if any(op[0] not in ("step",) for op in spec["ops"]) or spec.get("pushing"):
+    if any(op[0] not in ("step",) or len(op) > 1 for op in spec["ops"]) or spec.get("pushing"):
         return False
     if spec.get("ranges") and spec["ranges"][3] is False:
         return False
@@ -306,8 +306,8 @@ def lim_str(v):
 
 
 def ctl_request(spec, rec):
-    if any(op[0] == "solve" for op in spec["ops"]):
-        return None, None
+    if any(op[0] == "solve" or (op[0] == "step" and len(op) > 1) for op in spec["ops"]):
+        return None, None      # settings handed to Step are processed inside `_Step` (a Finalize after the stop test)
     solver = spec["solver"]
     npop = spec.get("npop", 1) if solver in ("DE", "DE2") else 1
     if solver in ("DE", "DE2"):
